@@ -84,6 +84,22 @@ TFlip == /\ HasRec /\ Rec.ev = "flip" /\ mode = "idle"
          /\ Den(G') = den0'
          /\ UNCHANGED <<H, mode>> /\ Advance
 
+TInsert == /\ HasRec /\ Rec.ev = "insert_chain" /\ mode = "idle"
+           /\ InsertChainAct(Rec.a, Rec.b, Rec.oids, Rec.coeffs, Rec.qs, Rec.dir)
+           /\ LoggedOK(G')
+           /\ Den(G') = den0'
+           /\ UNCHANGED <<H, mode>> /\ Advance
+
+(* node_depth(nid, direction) and length: distance to the terminal node in that direction = level from the other end *)
+TDepths == /\ HasRec /\ Rec.ev = "depths" /\ mode = "idle"
+           /\ Rec.length = GraphLength(G)
+           /\ \A k \in DOMAIN Rec.depths :
+                 LET n == Rec.depths[k][1]
+                 IN /\ n \in NodeIds(G)
+                    /\ Rec.depths[k][2] = LevelOf(G, n)                           \* direction 0: distance to the start node
+                    /\ Rec.depths[k][3] = GraphLength(G) - LevelOf(G, n)          \* direction 1: distance to the end node
+           /\ UNCHANGED <<G, den0, H, mode>> /\ Advance
+
 TAddBegin == /\ HasRec /\ Rec.ev = "add_begin" /\ mode = "idle"
              /\ JsonIdsUnique(Rec.h)
              /\ H' = GraphOfJson(Rec.h)
@@ -114,7 +130,7 @@ TRaise == /\ HasRec /\ Rec.ev = "raise" /\ mode = "idle"
           /\ LoggedOK(G)
           /\ UNCHANGED <<G, den0, H, mode>> /\ Advance
 
-TStep == TInit \/ TMerge \/ TSimplifyBegin \/ TSMerge \/ TSimplifyEnd \/ TRenameNode \/ TRenameEdge \/ TFlip
+TStep == TInsert \/ TDepths \/ TInit \/ TMerge \/ TSimplifyBegin \/ TSMerge \/ TSimplifyEnd \/ TRenameNode \/ TRenameEdge \/ TFlip
          \/ TAddBegin \/ TAddUnion \/ TAddEnd \/ TRaise
 
 TNextTrace == /\ tid <= Len(Tr) /\ l > Len(Tr[tid]) /\ mode = "idle"
@@ -142,6 +158,8 @@ Diagnose ==
     ELSE IF Rec.ev = "flip" THEN (IF Logged # FlipGraph(G) THEN "flip post-state differs" ELSE "flip does not reverse the words")
     ELSE IF Rec.ev \in {"rename_node", "rename_edge"} THEN "rename post-state differs or guard violated"
     ELSE IF Rec.ev = "raise" THEN "exception although the guard of the call holds"
+    ELSE IF Rec.ev = "insert_chain" THEN "_insert_opchain: post-state or denoted operator differs"
+    ELSE IF Rec.ev = "depths" THEN "node_depth / length differ from the levels of the graph"
     ELSE IF Rec.ev = "init" THEN "initial graph inconsistent"
     ELSE "unexpected event"
 
